@@ -962,18 +962,17 @@ fn compile_string_case(
         })
         .collect();
 
-    let default = if default_rows.is_empty() {
-        None
-    } else {
-        Some(Box::new(compile_rows(
-            genv,
-            gensym,
-            diagnostics,
-            default_rows,
-            ty,
-            match_range,
-        )))
-    };
+    // A string match without a catch-all still needs a default: with no rows left
+    // `compile_rows` yields the call to `missing`, so a value that matches no literal
+    // fails at that point instead of falling out of the switch.
+    let default = Some(Box::new(compile_rows(
+        genv,
+        gensym,
+        diagnostics,
+        default_rows,
+        ty,
+        match_range,
+    )));
 
     core::Expr::EMatch {
         expr: Box::new(bvar.to_core()),
